@@ -31,7 +31,16 @@ if mods:
                          'LbzVerif.Props.C12.guarded_under_lock',
                          'LbzVerif.Props.C12.unlocked_phase_private',
                          'LbzVerif.Props.C12.copy_race_free',
-                         'LbzVerif.Props.C12.step_annotated'])
+                         'LbzVerif.Props.C12.step_annotated',
+                         'LbzVerif.Props.C12.expand_owner_unique',
+                         'LbzVerif.Props.C12.expand_guarded_under_lock',
+                         'LbzVerif.Props.C12.expand_unlocked_phase_private',
+                         'LbzVerif.Props.C12.expand_race_free',
+                         'LbzVerif.Props.C12.expand_threads_distinct',
+                         'LbzVerif.Props.C12.expand_attached_in_block',
+                         'LbzVerif.Props.C12.inblk_not_freed_while_attached',
+                         'LbzVerif.Props.C12.expand_release_in_footprint',
+                         'LbzVerif.Props.C12.expand_step_annotated_partial'])
 sys.path.insert(0, os.path.dirname(os.path.abspath(__file__)))
 import inproc  # noqa: E402
 inproc.run_libs(ck, ['w14_race'])
